@@ -217,6 +217,10 @@ type builtReq struct {
 	hash    *big.Int // input hash of a valid batch
 	expStat int
 	expCode string
+	// framing of the request on the wire; the meaning of the document does not depend on it: "" = Content-Length,
+	// "chunked" = Transfer-Encoding: chunked (length unknown to the server), "padded" = the document followed by more than 1 MiB of JSON
+	// whitespace (a large upload)
+	framing string
 }
 
 type srvWorld struct {
@@ -316,11 +320,19 @@ type clientResult struct {
 func (w *srvWorld) doRequest(addr, id string, b *builtReq, others []*builtReq) clientResult {
 	tr := &http.Transport{DisableKeepAlives: true, ExpectContinueTimeout: 10 * time.Second}
 	cl := &http.Client{Transport: tr, Timeout: 120 * time.Second}
-	rq, err := http.NewRequest(b.kind.Method, "http://"+addr+"/prove", bytes.NewReader(b.body))
+	wire := b.body
+	if b.framing == "padded" && b.kind.Method == "POST" {
+		wire = append(append(make([]byte, 0, len(b.body)+1200000), b.body...), bytes.Repeat([]byte(" \n"), 600000)...)
+	}
+	var rd io.Reader = bytes.NewReader(wire)
+	if b.framing == "chunked" && b.kind.Method == "POST" {
+		rd = hiddenLen{bytes.NewReader(wire)}
+	}
+	rq, err := http.NewRequest(b.kind.Method, "http://"+addr+"/prove", rd)
 	if err != nil {
 		return clientResult{Done: true, Err: err.Error()}
 	}
-	if len(b.body) > 1<<20 {
+	if len(wire) > 1<<20 {
 		// large uploads announce themselves: whatever the server answers (100 Continue and then a verdict, or an early verdict),
 		// the client receives that answer instead of a broken pipe
 		rq.Header.Set("Expect", "100-continue")
